@@ -5,7 +5,7 @@
 cd /verif
 out=${SEEDRECHECK_OUT:-/verif/build/seedrecheck.txt}
 mkdir -p "$(dirname "$out")"
-: > "$out"
+[ -n "$SEEDRECHECK_APPEND" ] || : > "$out"
 seeds=("$@")
 if [ ${#seeds[@]} -eq 0 ]; then seeds=($(ls seeded)); fi
 for s in "${seeds[@]}"; do
@@ -14,13 +14,13 @@ for s in "${seeds[@]}"; do
   p=$(python3 -c "import json;print(json.load(open('$d/meta.json'))['property'])")
   if [ -n "$(git -C /repo status --porcelain)" ]; then echo "ABORT: /repo not clean" | tee -a "$out"; exit 2; fi
   if ! git -C /repo apply "$PWD/$d/patch.diff" 2>/dev/null && ! git -C /repo apply -3 "$PWD/$d/patch.diff" 2>/dev/null; then
-    echo "$s $p APPLY-FAILED" | tee -a "$out"; git -C /repo checkout -- . ; git -C /repo reset -q; continue
+    echo "$s $p APPLY-FAILED" | tee -a "$out"; git -C /repo reset -q --hard HEAD; continue
   fi
   python3 check.py "$p" --tier quick > build/seedrecheck_$s.log 2>&1
   rc=$?
   nv=$(grep -c '^VIOLATION' build/seedrecheck_$s.log)
   nn=$(grep -c 'no-failing-input-found' build/seedrecheck_$s.log)
-  git -C /repo reset -q; git -C /repo checkout -- . ; git -C /repo clean -fdq -- . 2>/dev/null
+  git -C /repo reset -q --hard HEAD; git -C /repo clean -fdq -- . 2>/dev/null
   if [ $rc -ne 0 ] && [ "$nv" -gt 0 ]; then r=DETECTED; else r=MISSED; fi
   echo "$s $p $r exit=$rc violations=$nv nofail=$nn" | tee -a "$out"
 done
